@@ -291,10 +291,12 @@ theorem isDominated_eq_domW (w1 w2 : List α) : isDominated w1 w2 = domW w2 w1 :
           · simp [h1, h2, ih]
   exact gen w1 w2 false
 
-/-- **B2 (partial).**  Whenever model B finishes (its result is `some`), asked for at least `n`
-individuals it returns every input individual exactly once, and for every `k` each returned front
-is closed under "equal weighted values".  What is *not* proved here is that the ranks computed by
-the divide-and-conquer helpers are the dominance depths (`sortLog_eq_sortStd_Statement`). -/
+/-- **B2 (partial: structural facts for any scalar type).**  Whenever model B finishes (its result is
+`some`), asked for at least `n` individuals it returns every input individual exactly once, and for
+every `k` each returned front is closed under "equal weighted values".  This needs nothing about the
+ranks computed by the divide-and-conquer helpers; that they are the dominance depths (and that the
+model always finishes) is proved for ordered fields in `sortLog_eq_peel` / `sortLog_terminates`
+below. -/
 theorem sortLog_partition_partial (pop : List (Ind α)) (k : Nat) (fronts : List (List (Ind α)))
     (h : sortLog pop k = some fronts) :
     (pop.length ≤ k → k ≠ 0 → fronts.flatten.Perm pop) ∧
@@ -327,7 +329,7 @@ example : sortLog ([⟨0, [1, 2]⟩, ⟨1, [0, 0]⟩] : List (Ind Int)) 2 = some
   simp [sortLog, logRanks, dset, dget, dkeys, dvalues, helperA, logFronts, logTruncate, logTruncate.go,
     List.modify, List.mergeSort, Py.tupleLt, isDominated, isDominatedLoop, bump]
 
-/-- **B3 (partial).**  The truncation of model B returns the leading fronts (of whatever fronts its
+/-- **B3 (partial: any scalar type).**  The truncation of model B returns the leading fronts (of whatever fronts its
 ranks define) needed to reach `k`, none for `k = 0`; with `first_front_only` the first front. -/
 theorem sortLog_truncation_partial (pop : List (Ind α)) (k : Nat) :
     sortLog pop 0 = some [] ∧ sortLogFirst pop 0 = some [] ∧
